@@ -86,11 +86,15 @@ def case_strategy(draw, tier="quick", mode=None, kinds=None):
     sinks = [i for i, nd in enumerate(nodes) if nd["k"] == "sink"]
     if m == "async":
         cm = {str(i): draw(st.sampled_from(["sync", "fut", "coro"])) for i in sinks}
+    elif m == "threaded":
+        # a coroutine consumer completes (or fails) on the loop thread; the blocking emit must
+        # wait for it and raise what it raised
+        cm = {str(i): draw(st.sampled_from(["sync", "coro"])) for i in sinks}
     else:
         cm = {str(i): "sync" for i in sinks}
     md = draw(st.lists(st.sampled_from([1, 1, 2, 0]), min_size=1, max_size=4))
     return {"spec": spec, "events": [list(e) for e in events], "faults": faults, "mode": m,
-            "cmodes": cm, "md": md}
+            "cmodes": cm, "md": md, "prelude": m in ("threaded", "sync") and draw(st.booleans())}
 
 
 def run_real(case):
@@ -132,8 +136,26 @@ def run_real(case):
                 one(b, log, loop, idx, e)
     else:
         log = Log()
+        if case.get("prelude"):
+            # the same thread first uses an asynchronous pipeline whose function raises (that
+            # exception reaches us, as it should); whatever per-thread state emit() keeps must
+            # not leak into the pipelines used afterwards
+            from streamz import Stream
+            with install():
+                s0 = Stream(asynchronous=True)
+
+                def boom(x):
+                    raise Boom(("prelude", 0, 0))
+                m0 = s0.map(boom)
+                try:
+                    s0.emit(1)
+                except Boom:
+                    pass
+                del m0
         b = specs.build(spec, log, asynchronous="thread" if case["mode"] == "threaded" else False,
                         consumer_modes=cm, faults=faults)
+        for c_ in b.consumers.values():
+            c_.auto = True   # no harness-resolved futures off the virtual loop
         for idx, e in enumerate(case["events"]):
             one(b, log, None, idx, e)
         if case["mode"] == "threaded":
@@ -176,6 +198,23 @@ def execute(case):
             v.append(("%s:%s:not-the-raised-instance" % (ID, f[0][0] if f else "none"),
                       "emission %d: caller saw %r; raised: %r" % (idx, exc, [x for _, x, _ in f])))
             break
+    # a blocking emit returns only when the consumers are done: a consumer that was called but
+    # never ran to its end means its outcome (possibly an exception) can never reach the caller
+    if case["mode"] in ("threaded", "sync"):
+        # (emissions in which a fault fired are left out: what happens to siblings that were
+        # reached before the failing branch is not stated)
+        called, w_ = set(), -1
+        for e in ev:
+            if e[0] == "emit":
+                w_ = e[1]
+            elif e[0] == "cc" and w_ not in fired:
+                called.add((e[1], e[2]))
+        ended = {(e[1], e[2]) for e in ev if e[0] in ("cf", "cx")}
+        if called - ended:
+            v.append(("%s:sink:consumer-called-but-never-completed" % ID,
+                      "mode %s: invocations %s of the consumer were started by a blocking emit "
+                      "that returned without them having finished" % (
+                          case["mode"], sorted(called - ended)[:4])))
     # ---- (b) state kept: every node's observed output is the documented function of its
     # observed input with the failing invocations removed ------------------------------------
     inputs, outputs = local.node_io(spec, log)
